@@ -476,7 +476,7 @@ def c_swizzle_order(c, ndist, nother):
         def __eq__(self, o):
             return self is o
 
-    def run(hashes):
+    def run(hashes, debug=0):
         rs = RandSet()
         fl = []
         for i in range(ndist + nother):
@@ -497,7 +497,7 @@ def c_swizzle_order(c, ndist, nother):
                 self.draws.append((lo, hi, v))
                 return v
         rng = FixedRng()
-        sw = SW.SolveGroupSwizzlerPartsel(rng, None)
+        sw = SW.SolveGroupSwizzlerPartsel(rng, None, debug=debug)
         order = []
 
         def fake_swizzle_field(f, rs_, bm):
@@ -505,7 +505,10 @@ def c_swizzle_order(c, ndist, nother):
             return None
         sw.swizzle_field = fake_swizzle_field
         bt = GhostBoolector(oracle=lambda b, asserted, assumed: True)       # nothing is asserted: always SAT
-        sw.swizzle_field_l(list(rs.rand_fields()), rs, {}, bt)
+        import io
+        import contextlib
+        with contextlib.redirect_stdout(io.StringIO()):                     # debug > 0 prints a trace
+            sw.swizzle_field_l(list(rs.rand_fields()), rs, {}, bt)
         return order, list(rng.draws)
     n = ndist + nother
     base = run(list(range(n)))
@@ -517,3 +520,8 @@ def c_swizzle_order(c, ndist, nother):
         c.check("C09: the order in which fields are steered and the draws made do not depend on the fields' hashes / addresses "
                 "(same seed, same class, same history => same values whatever the memory layout)",
                 got[0] == base[0] and got[1] == base[1], info="hashes %r: %r vs %r" % (perm, got[0], base[0]))
+    for dbg in (1, 2):
+        got = run(list(range(n)), debug=dbg)
+        c.check("C09: the fields steered and the RandState draws made are the same whatever the debug setting (diagnostic settings "
+                "do not change the values)", got[0] == base[0] and got[1] == base[1],
+                info="debug=%d: %r / %d draws vs %r / %d draws" % (dbg, got[0], len(got[1]), base[0], len(base[1])))
